@@ -166,9 +166,6 @@ func c14One(binds []c14Binding, limit int) (*core.Viol, bool) {
 			}
 			ra := implEval(a, b.name, 1000)
 			rx := implEval(x, b.name, 1000)
-			if b.val != nil && !ra.isErr && ra.val != ref.Dump(*b.val) {
-				return nil, false // the definition itself does not yield the intended value (not this property's business)
-			}
 			if rx.isErr || ra.val != rx.val {
 				class := how + ":value-differs"
 				if b.val != nil && !rx.isErr && rx.val == ref.Dump(c14Degrade(*b.val)) {
